@@ -35,6 +35,8 @@ void harness_run (void) ;			/* enumerate all cases via vl_case()/vl_end() */
 int  vl_case (const char *fmt, ...) __attribute__ ((format (printf, 1, 2))) ;
 /* vl_end: finish the case. nontrivial = counts towards distinct_nontrivial, outcome = hash of what was observed. */
 void vl_end (int nontrivial, uint64_t outcome) ;
+/* vl_subcase: inside a running case, name the sub-execution that follows (used as the spec of violations and crashes) */
+void vl_subcase (const char *fmt, ...) __attribute__ ((format (printf, 1, 2))) ;
 const char *vl_spec (void) ;		/* spec string of the running case */
 int  vl_replaying (void) ;
 
